@@ -4,7 +4,6 @@ CONSTANTS
  MaxItems = 2
  MaxTicket = 8
  MaxStale = 0
- MaxGen = 1
  AllowRemove = FALSE
  Dev = {}
 PROPERTY Live
